@@ -260,6 +260,9 @@ def parse_listing(b):
     ins = []
     for t in filter(None, m.group(2).split(",")):
         mm = re.match(r"(\d+)(.*)$", t)
+        if not mm:
+            ins.append(("?", None))      # get_instruction returned nothing for this index
+            continue
         op = mm.group(2)
         if op == "-":
             o = None
@@ -311,7 +314,9 @@ def wf_native(lst, nodes, ilo=0, jlo=0, kinds=None):
     dts = data_types()
     for k, (name, o) in enumerate(ins):
         ok = True
-        if o is None:
+        if name == "?":
+            ok = False
+        elif o is None:
             ok = takes.get(name) is False
         elif o[0] == "d":
             # which node made the constant: the metadata record when there is one
@@ -430,7 +435,7 @@ def succs(lst, pc, d, ilo=0, jlo=0):
         return None if t is None or r < 1 else [(t, (r - 1, v))]
     if name == "EndExpression":
         return [] if d == (1, 0) else None
-    e = effect(name, o)
+    e = effect(name, o) if name != "?" else None
     if e is None or r < e[0] or v < e[3]:
         return None
     return [(pc + 1, (r - e[0] + e[1], v - e[3] + e[2]))]
